@@ -74,6 +74,28 @@ Theorem C14_first_match_wins :
 Proof. exact first_match_wins. Qed.
 Print Assumptions C14_first_match_wins.
 
+(** at the level of the table: the parameters a match returns are those the pattern of the
+    FIRST generated flat route that matches the path binds (every earlier flat route does
+    not match it).  Stated without base path. *)
+Theorem C14_first_flat_route_wins_except_known :
+  forall rs p ch ps,
+    wf_tree rs = true -> wf_routes rs = true -> starts_with_slash p = true ->
+    known_class None rs p = false ->
+    match_route None rs p = MYes ch ps ->
+    exists pre f post r,
+      gen_routes rs = pre ++ f :: post
+      /\ Forall (fun g => flat_good p g = false) pre
+      /\ spre (toks f) p = Some (ps, r) /\ rem_ok r = true.
+Proof. exact first_flat_route_wins. Qed.
+Print Assumptions C14_first_flat_route_wins_except_known.
+
+(** expand_optionals: no optional survives; each optional is decided both ways *)
+Theorem C14_expand_optionals_spec :
+  forall f, Forall (fun e => existsb is_popt e = false) (expand_optionals f)
+            /\ length (expand_optionals f) = Nat.pow 2 (count_popt f).
+Proof. exact expand_optionals_spec. Qed.
+Print Assumptions C14_expand_optionals_spec.
+
 (** ---- matched prefix and remainder partition the path ----
     for one segment value (any nesting of tuples, optionals, wildcard): always *)
 Theorem C14_matched_remaining_partition :
